@@ -26,6 +26,7 @@ def step (d : DState) (line : String) : DState × String :=
       match Pkt.dispatch ns fn b arg with
       | some s => (d, s)
       | none => (d, "bad-op")
+  | ["conc", "noop"] => (d, "ok")
   | "ext" :: rest => (d, (Ext.handle rest).getD "bad-op")
   | "cksum" :: rest => (d, (Cksum.handle rest).getD "bad-op")
   | "st" :: args =>
